@@ -190,6 +190,30 @@ class SStrKey(object):
         return "<str key %r>" % (self.k,)
 
 
+def _int_bounds(dt):
+    bits = 8 * dt.itemsize
+    if dt.kind == "u":
+        return 0, (1 << bits) - 1
+    return -(1 << (bits - 1)), (1 << (bits - 1)) - 1
+
+
+def _int_range_within(src, dst):
+    a, b = _int_bounds(src)
+    c, d = _int_bounds(dst)
+    return c <= a and b <= d
+
+
+def _wrap_int(c, dt):
+    """C-style conversion of an integer cell to integer dtype dt (two's complement wrap)"""
+    lo, hi = _int_bounds(dt)
+    m = hi - lo + 1
+    if is_sym(c):
+        if _py_isinstance(c, SBool):
+            return c._asint()
+        return sym_ite(symx.sym_and(c >= lo, c <= hi), c, (c - lo) % m + lo)
+    return (_py_int(c) - lo) % m + lo
+
+
 def _py_scalar(x):
     if _py_isinstance(x, rnp.generic):
         return x.item()
@@ -273,11 +297,33 @@ def ndim(x):
     return asarray(x).ndim
 
 
-def _to_index(idx):
+def _slice_bound(v, n):
+    """python's clamping of a symbolic slice bound for a positive step, done
+    symbolically so that only the values inside [0, n] are enumerated"""
+    if v is None or not _py_isinstance(v, Sym):
+        return v
+    if _py_isinstance(v, SReal):
+        raise TypeError("slice indices must be integers or None or have an __index__ method")
+    if _py_isinstance(v, SBool):
+        return _py_int(v)
+    w = sym_ite(v < 0, sym_ite(v + n < 0, 0, v + n), sym_ite(v > n, n, v))
+    return _py_int(w)
+
+
+def _to_index(idx, shape=None):
     """convert an index expression to something numpy accepts (forking on symbolic
     cells).  """
     if _py_isinstance(idx, tuple):
-        return tuple(_to_index(i) for i in idx)
+        out = []
+        ax = 0
+        for i in idx:
+            n = None
+            if shape is not None and ax < _py_len(shape) and Ellipsis not in idx:
+                n = (shape[ax],)
+            out.append(_to_index(i, n))
+            if i is not None:
+                ax += 1
+        return tuple(out)
     if _py_isinstance(idx, SArr):
         if idx.dt.kind == "b":
             flat = [bool(c) for c in idx.a.ravel().tolist()]
@@ -295,7 +341,10 @@ def _to_index(idx):
             if _py_isinstance(v, SReal):
                 raise TypeError("slice indices must be integers or None or have an __index__ method")
             return _py_int(v) if _py_isinstance(v, Sym) else v
-        return slice(cv(idx.start), cv(idx.stop), cv(idx.step))
+        step = cv(idx.step)
+        if shape and (step is None or step > 0):
+            return slice(_slice_bound(idx.start, shape[0]), _slice_bound(idx.stop, shape[0]), step)
+        return slice(cv(idx.start), cv(idx.stop), step)
     if _py_isinstance(idx, SInt):
         return _py_int(idx)
     if _py_isinstance(idx, SBool):
@@ -304,7 +353,7 @@ def _to_index(idx):
         raise IndexError("only integers, slices (`:`), ellipsis (`...`), numpy.newaxis (`None`) "
                          "and integer or boolean arrays are valid indices")
     if _py_isinstance(idx, list):
-        if _py_len(idx) and all(_py_isinstance(i, (bool, SBool)) for i in idx):
+        if _py_len(idx) and builtins.all(_py_isinstance(i, (bool, SBool)) for i in idx):
             return [bool(i) for i in idx]
         return [_to_index(i) if _py_isinstance(i, (Sym, list)) else i for i in idx]
     return idx
@@ -342,7 +391,33 @@ class SArr(object):
 
     @dtype.setter
     def dtype(self, d):
-        raise Unsupported("dtype assignment on a plain symbolic array")
+        # in-place reinterpretation of the same bytes: only a change of declared byte
+        # order (same kind and item size) is modelled; the raw cells stay as they are
+        d = dtype(d)
+        if d.names is None and d.kind == self.dt.kind and d.itemsize == self.dt.itemsize and d.shape == ():
+            self.dt = d
+            return
+        raise Unsupported("dtype assignment %s -> %s on a symbolic array" % (self.dt, d))
+
+    # cells hold the *raw* content as read in native order; for a non-native declared
+    # order the logical value is bswap(cell)
+    @property
+    def swapped(self):
+        return (not self.dt.isnative) and self.dt.itemsize > 1 and self.dt.kind not in "SUOV"
+
+    @property
+    def la(self):
+        """object ndarray of logical values"""
+        if self.swapped:
+            return _map(symx.bswap, self.a)
+        return self.a
+
+    def _check_writable(self):
+        if not self.a.flags.writeable:
+            cx = symx.Ctx.current
+            if cx is not None:
+                cx.notes.setdefault("frozen_writes", []).append(getattr(self, "label", None) or "array")
+            raise symx.FrozenWrite("store into a frozen (caller-owned) buffer")
 
     @property
     def T(self):
@@ -408,26 +483,31 @@ class SArr(object):
         return self.a.ravel()[0]
 
     def tolist(self):
-        return self.a.tolist()
+        return self.la.tolist()
 
     # ---- indexing ----
     def __getitem__(self, idx):
         if _py_isinstance(idx, str):
             raise IndexError("only integers, slices (`:`), ellipsis (`...`), numpy.newaxis (`None`) "
                              "and integer or boolean arrays are valid indices")
-        r = self.a[_to_index(idx)]
+        r = self.a[_to_index(idx, self.a.shape)]
         if _py_isinstance(r, rnp.ndarray) and r.dtype == object:
             return SArr(r, self.dt)
+        if self.swapped:
+            return symx.bswap(r)
         return r
 
     def __setitem__(self, idx, val):
-        i = _to_index(idx)
+        self._check_writable()
+        i = _to_index(idx, self.a.shape)
+        sw = self.swapped
+        cc = (lambda c: symx.bswap(cast_cell(c, self.dt))) if sw else (lambda c: cast_cell(c, self.dt))
         if _py_isinstance(val, SArr):
-            v = _map(lambda c: cast_cell(c, self.dt), val.a)
+            v = _map(cc, val.la)
         elif _py_isinstance(val, (list, tuple, rnp.ndarray, range)):
-            v = _map(lambda c: cast_cell(c, self.dt), asarray(val).a)
+            v = _map(cc, asarray(val).a)
         else:
-            v = cast_cell(_py_scalar(val), self.dt)
+            v = cc(_py_scalar(val))
             full = (_py_isinstance(i, (_py_int, rnp.integer)) and self.a.ndim == 1) or (
                 _py_isinstance(i, tuple) and _py_len(i) == self.a.ndim and
                 builtins.all(_py_isinstance(j, (_py_int, rnp.integer)) for j in i))
@@ -443,7 +523,15 @@ class SArr(object):
         dt = dtype(dt)
         if not copy and dt == self.dt:
             return self
-        return SArr(_map(lambda c: cast_cell(c, dt), self.a), dt)
+        if dt.names is not None:
+            raise Unsupported("astype to a structured dtype")
+        if self.dt.kind in "iu" and dt.kind in "iu" and dt != self.dt and not _int_range_within(self.dt, dt):
+            r = SArr(_map(lambda c: _wrap_int(c, dt), self.la), dt)
+        else:
+            r = SArr(_map(lambda c: cast_cell(c, dt), self.la), dt)
+        if r.swapped:
+            r.a = _map(symx.bswap, r.a)
+        return r
 
     def copy(self, order="C"):
         return SArr(self.a.copy(), self.dt)
@@ -454,6 +542,12 @@ class SArr(object):
         t = args[0] if args else kw.get("type", kw.get("dtype"))
         if t is SArr or t is ndarray:
             return SArr(self.a.view(), self.dt)
+        try:
+            d = dtype(t)
+        except Exception:
+            d = None
+        if d is not None and d.names is None and d.kind == self.dt.kind and d.itemsize == self.dt.itemsize:
+            return SArr(self.a.view(), d)
         raise Unsupported("view(%r) on a symbolic array" % (t,))
 
     def reshape(self, *shape, **kw):
@@ -478,10 +572,24 @@ class SArr(object):
         self[...] = v
 
     def byteswap(self, inplace=False):
-        raise Unsupported("byteswap on a plain symbolic array (use the byte-order model)")
+        multi = self.dt.itemsize > 1 and self.dt.kind not in "SUOV"
+        if self.dt.kind == "c":
+            raise Unsupported("byteswap of complex cells")
+        if inplace:
+            self._check_writable()
+            if multi and self.a.size:
+                flat = [symx.bswap(c) for c in self.a.ravel().tolist()]
+                it = iter(flat)
+                for ix in rnp.ndindex(*self.a.shape):
+                    self.a[ix] = next(it)
+            return self
+        if multi:
+            return SArr(_map(symx.bswap, self.a), self.dt)
+        return SArr(self.a.copy(), self.dt)
 
     def newbyteorder(self, *a):
-        raise Unsupported("newbyteorder on an array")
+        raise AttributeError("`newbyteorder` was removed from the ndarray class in NumPy 2.0. "
+                             "Use `arr.view(arr.dtype.newbyteorder(order))` instead.")
 
     # ---- arithmetic ----
     def _binop(self, other, f, rkind=None, swap=False):
@@ -504,7 +612,10 @@ class SArr(object):
             except Unsupported:
                 return NotImplemented
             odt = ("weak", odt)
-        x, y = (oa, self.a) if swap else (self.a, oa)
+        if _py_isinstance(other, SArr) and other.swapped:
+            oa = other.la
+        sa = self.la if self.swapped else self.a
+        x, y = (oa, sa) if swap else (sa, oa)
         r = _map2(f, x, y)
         if rkind in ("cmp", "eq", "ne"):
             dt = rnp.dtype("?")
@@ -573,7 +684,14 @@ class SArr(object):
         return self._binop(o, _pow, swap=True)
 
     def __neg__(self):
-        return SArr(_map(lambda c: -c, self.a), self.dt)
+        if self.dt.kind == "u":
+            # unsigned negation wraps modulo 2**bits
+            m = 1 << (8 * self.dt.itemsize)
+            return SArr(_map(lambda c: sym_ite(c == 0, 0, m - c) if is_sym(c) else ((-c) % m), self.la), self.dt)
+        if self.dt.kind == "b":
+            raise TypeError("The numpy boolean negative, the `-` operator, is not supported, "
+                            "use the `~` operator or the logical_not function instead.")
+        return SArr(_map(lambda c: -c, self.la), self.dt)
 
     def __pos__(self):
         return self.copy()
@@ -644,7 +762,7 @@ class SArr(object):
 
     # ---- reductions ----
     def _reduce(self, f, axis, init=None, empty_err=None):
-        a = self.a
+        a = self.la
         if axis is None:
             cells = a.ravel().tolist()
             if not cells:
@@ -689,11 +807,15 @@ class SArr(object):
         n = self.a.size if axis is None else self.a.shape[_py_int(axis)]
         s = self.sum(axis=axis)
         if n == 0:
-            raise Unsupported("mean of empty array (nan)")
+            if axis is None:
+                return nan          # NumPy: RuntimeWarning + nan, no exception
+            raise Unsupported("mean over an empty axis (nan)")
         return s / n if not _py_isinstance(s, _py_int) else s / n
 
     def var(self, axis=None, ddof=0, **kw):
         n = self.a.size if axis is None else self.a.shape[_py_int(axis)]
+        if n == 0 and axis is None:
+            return nan
         m = self.mean(axis=axis)
         if axis is not None and _py_isinstance(m, SArr):
             m = expand_dims(m, _py_int(axis))
@@ -913,6 +1035,15 @@ def ascontiguousarray(x, dtype=None):
 
 def array(x, dtype=None, copy=True, ndmin=0, order=None, **kw):
     dt = globals()["dtype"](dtype) if dtype is not None else None
+    from . import symrec
+    if _py_isinstance(x, symrec.SRec):
+        if dt is not None and dt != x.dt:
+            r = x.astype(dt)
+        else:
+            r = x.copy() if copy else x
+        if ndmin and r.ndim < ndmin:
+            r = r.reshape((1,) * (ndmin - r.ndim) + r.shape)
+        return r
     if dt is not None and dt.names is not None:
         raise Unsupported("structured dtype in plain symnp.array")
     if _py_isinstance(x, SArr):
@@ -936,7 +1067,7 @@ def atleast_1d(*xs):
     for x in xs:
         r = array(x, copy=False)
         if r.ndim == 0:
-            r = SArr(r.a.reshape(1), r.dt)
+            r = r.reshape(1)
         out.append(r)
     return out[0] if _py_len(out) == 1 else out
 
@@ -965,7 +1096,8 @@ def _full(shape, v, dt):
 def zeros(shape, dtype=float, order="C", **kw):
     dt = globals()["dtype"](dtype)
     if dt.names is not None:
-        raise Unsupported("structured zeros in plain symnp")
+        from . import symrec
+        return symrec.SRec.zeros(shape, dt)
     return _full(shape, cast_cell(0, dt) if dt.kind not in "SU" else (b"" if dt.kind == "S" else ""), dt)
 
 
@@ -985,7 +1117,7 @@ def full(shape, v, dtype=None):
 
 def zeros_like(x, dtype=None):
     x = asarray(x)
-    return zeros(x.shape, dtype or x.dt)
+    return zeros(x.shape, dtype if dtype is not None else x.dt)
 
 
 def ones_like(x, dtype=None):
@@ -1086,11 +1218,15 @@ def _unary(f, to_float=True):
         if out is not None:
             out[...] = r
             return out
+        if to_float and _py_isinstance(r, _py_float) and not _py_isinstance(r, rnp.floating):
+            r = rnp.float64(r)      # NumPy scalar semantics (x/0 -> inf/nan + warning, not an exception)
         return r
     return g
 
 
 def _sqrt_cell(c):
+    if _py_isinstance(c, _py_float) and c != c:
+        return c
     if is_sym(c):
         return sym_sqrt(c)
     if c < 0:
@@ -1342,6 +1478,34 @@ def argsort(x, axis=-1, kind=None, **kw):
     return asarray(x).argsort(kind=kind)
 
 
+def lexsort(keys, axis=-1):
+    """indirect stable sort on several keys, the last key being the primary one"""
+    ks = [asarray(k) for k in keys]
+    n = ks[0].size
+    for k in ks:
+        if k.ndim != 1 or k.size != n:
+            raise Unsupported("lexsort on non 1-d / unequal keys")
+    cols = [k.la.tolist() for k in ks][::-1]      # primary first
+    order = []
+    for i in range(n):
+        j = _py_len(order)
+        while j > 0:
+            o = order[j - 1]
+            less = False
+            for col in cols:
+                if bool(col[i] < col[o]):
+                    less = True
+                    break
+                if bool(col[i] > col[o]):
+                    break
+            if less:
+                j -= 1
+                continue
+            break
+        order.insert(j, i)
+    return SArr(_obj_array(order) if order else rnp.empty((0,), dtype=object), rnp.dtype("i8"))
+
+
 def sort(x, axis=-1, kind=None):
     r = array(x, copy=True)
     r.sort()
@@ -1355,7 +1519,7 @@ def median(x, axis=None, **kw):
     cells = xa.a.tolist()
     n = _py_len(cells)
     if n == 0:
-        raise Unsupported("median of empty array")
+        return nan
     order = _argsort_cells(cells)
     if n % 2 == 1:
         r = cells[order[n // 2]]
@@ -1517,3 +1681,9 @@ random = _Random()
 
 lib = rnp.lib
 __version__ = rnp.__version__
+
+
+def __getattr__(name):
+    if name.startswith("__"):
+        raise AttributeError(name)
+    raise Unsupported("numpy.%s is not modelled by vf.symnp" % name)
